@@ -1213,13 +1213,35 @@ def read_outputs(build):
     return out
 
 
+_HARVEST = []
+
+
+def harvested_variable_names():
+    """Names of environment variables bfg9000 reads through its variable store or os.environ (string literals in
+    getvar('X') / variables.get('X') / variables['X'] / environ.get('X') / environ['X'] / getenv('X'))."""
+    if not _HARVEST:
+        import re as _re
+        names = set()
+        pat = _re.compile(r"(?:getvar|variables\.get|environ\.get|getenv)\(\s*'([A-Za-z_][A-Za-z0-9_]*)'|(?:variables|environ)\[\s*'([A-Za-z_][A-Za-z0-9_]*)'\s*\]")
+        root = os.path.join(common.REPO, 'bfg9000')
+        for d, _, files in os.walk(root):
+            for fn in files:
+                if fn.endswith('.py'):
+                    for m in pat.finditer(open(os.path.join(d, fn), encoding='utf-8').read()):
+                        names.add(m.group(1) or m.group(2))
+        # flag variables are looked up by computed names: add the documented ones
+        names.update(['CC', 'CXX', 'CFLAGS', 'CXXFLAGS', 'CPPFLAGS', 'LDFLAGS', 'LDLIBS', 'AR', 'ARFLAGS', 'DESTDIR', 'MAKE', 'NINJA'])
+        _HARVEST.extend(sorted(names))
+    return list(_HARVEST)
+
+
 def system_case(rng, top, which_probe):
     """One project: configure under E0, regenerate/env under perturbed ambient state. Returns list of (classes, message)."""
     src, build, fake = os.path.join(top, 'src dir'), os.path.join(top, 'build'), os.path.join(top, 'fakebin')
     for d in (src, fake, os.path.join(top, 'elsewhere')):
         os.makedirs(d)
     with open(os.path.join(src, 'build.bfg'), 'w') as f:
-        f.write("project('p')\nexecutable('prog', files=['main.c'])\n")
+        f.write("project('p')\nprog = executable('prog', files=['main.c'])\ninstall(prog)\n")
     with open(os.path.join(src, 'options.bfg'), 'w') as f:
         f.write("argument('level', default='0')\n")
     with open(os.path.join(src, 'main.c'), 'w') as f:
@@ -1260,6 +1282,10 @@ def system_case(rng, top, which_probe):
         ('cwd-elsewhere-relative', {'CC': 'clang'}, os.path.join(top, 'elsewhere'), '../build'),
         ('path-reordered', {'PATH': base_path + ':' + fake, 'CC': 'clang'}, top, build),
     ]
+    # every environment variable name that bfg9000's own source looks up (harvested from the tree under test) set to an
+    # ambient value at once: none of them may reach the regenerated files (DESTDIR, LDFLAGS, AR, MAKE, ...)
+    perturbations.append(('all-variables-bfg9000-reads', {k: 'ambient_' + k.lower() for k in harvested_variable_names()
+                                                           if k not in ('PATH', 'HOME', 'PYTHONPATH')}, top, build))
     if which_probe:
         perturbations.append(('path-without-configured-tool', {'PATH': base_path}, top, build))
     for name, delta, cwd, barg in perturbations:
